@@ -11,7 +11,7 @@ caches behind `sync.Once`. A call is two atomic steps that other goroutines may 
   recomputation yields) then it stays transparent and every goroutine has obtained, for each call it completed,
   exactly `f` of that call, in program order.
 * The premise that hand-written code has no package-level mutable state, no goroutines and no sync primitives of its
-  own is the tie `RulesModel/Tie/Inventory.lean`, re-extracted from the Go source on every run.
+  own is the tie `RulesModel/Tie/PkgState.lean`, re-extracted from the Go source on every run.
 
 What this model cannot exhibit: Go-memory-model data races, torn reads, the locking inside the ANTLR runtime. Those are
 observed only dynamically (race detector, fresh processes) – hence the level `other`.
